@@ -244,6 +244,7 @@ func (x *txnCtx) applyFilter(chain []FStep) sel {
 		if x.clears(f) {
 			x.cleared = true
 		}
+		x.filtered = true // (the selection persists: a later unfiltered operation of this transaction still sees it)
 		x.libFilterStep(f)
 		if s != nil {
 			modelFilterStep(x.w.model, s, f, *first, all)
@@ -785,7 +786,7 @@ func (x *txnCtx) ascend(op *Op, want sel) {
 		if !exp[o] {
 			if _, live := m.Rows[o]; !live {
 				class := "ascend/dead-row/unfiltered"
-				if len(op.Filter) > 0 {
+				if len(op.Filter) > 0 || x.filtered {
 					// (a Union with a column's presence bitmap can select what a dead row left behind:
 					// part of the known finding "store and delete of one row in one transaction")
 					class = "ascend/dead-row/filtered"
